@@ -24,7 +24,8 @@ def _relabel(nl, f):
 def cases(draw, tier):
     big = tier == 'thorough'
     left = draw(gen.netlists(min_inputs=0, max_inputs=6 if big else 5, max_gates=18 if big else 12,
-                             min_outputs=1, max_outputs=4, styles=('plain', 'digits', 'mixed')))
+                             min_outputs=1, max_outputs=4, styles=('plain', 'digits', 'mixed'),
+                             const_operands=(0, 0, 2)))
     if not left['gates']:
         left = {'inputs': [], 'gates': [['k', 'ALWAYS_TRUE', []]], 'outputs': ['k'], 'style': 'plain'}
     if not left['outputs']:
